@@ -191,6 +191,7 @@ def _run_route(route, xmls, workdir, out, label):
     states = []
     prev = None
     for rnd in range(4):
+        raw_before = dumps.raw_dump(db.file)
         for c in calls:
             try:
                 c()
@@ -199,6 +200,9 @@ def _run_route(route, xmls, workdir, out, label):
         stt = _state(db)
         states.append(stt)
         if prev is not None and stt['installed'] == prev:
+            # nothing new was installed in this round: then nothing at all may have changed
+            for p, e, g in diff(raw_before, dumps.raw_dump(db.file))[:5]:
+                out.append(Disc('re-add-changes-database', f'{label} round {rnd + 1}{p}', e, g))
             break
         prev = stt['installed']
     # one more add of what is installed must change nothing at all
